@@ -22,6 +22,9 @@ struct Params {
     explicit_id: bool,
     via_src_file: bool,
     host_events: usize,
+    /// a nested state of the invoking state carries an <invoke> whose argument cannot be evaluated (0 = none):
+    /// the invoke step raises error.execution while the working invokes of the same step must start exactly once
+    failing_invoke: usize,
 }
 
 fn child_doc(p: &Params, tag: &str) -> String {
@@ -90,6 +93,20 @@ fn parent_doc(p: &Params, dir: &std::path::Path) -> String {
     } else {
         mk_invoke("k1", "fin-k1")
     };
+    let (inv_initial, broken) = match p.failing_invoke {
+        0 => ("", String::new()),
+        k => {
+            let b = match k {
+                1 => "<invoke srcexpr=\"noSuchVar.uri\"/>",
+                2 => "<invoke namelist=\"noSuchVar\" src=\"unused.scxml\"/>",
+                _ => "<invoke typeexpr=\"noSuchVar.t\" src=\"unused.scxml\"/>",
+            };
+            (
+                " initial=\"inv_a\"",
+                format!("<state id=\"inv_a\">{}<transition event=\"error.execution\" target=\"inv_b\"><script>mark('perr')</script></transition></state><state id=\"inv_b\"/>", b),
+            )
+        }
+    };
     format!(
         r##"<scxml xmlns="http://www.w3.org/2005/07/scxml" version="1.0" name="parent" datamodel="{dm}" initial="idle">
  <datamodel><data id="a" expr="7"/><data id="pv" expr="40"/><data id="finalized" expr="0"/><data id="id_k1" expr="''"/><data id="id_k2" expr="''"/></datamodel>
@@ -102,10 +119,11 @@ fn parent_doc(p: &Params, dir: &std::path::Path) -> String {
   <onentry><script>mark('flash-entered')</script></onentry>
   <transition target="idle"/>
  </state>
- <state id="inv">
+ <state id="inv"{inv_initial}>
   <onentry><script>mark('inv-entered')</script></onentry>
   <onexit><script>mark('inv-exited')</script></onexit>
   {invokes}
+  {broken}
   <transition event="c"><script>mark('pc', _event.name, _event.invokeid, _event.data.seq, _event.data.tag, _event.data.sid)</script></transition>
   <transition event="done.invoke"><script>mark('pdone', _event.name, _event.invokeid)</script></transition>
   <transition event="h"><script>mark('ph', _event.name)</script></transition>
@@ -120,6 +138,8 @@ fn parent_doc(p: &Params, dir: &std::path::Path) -> String {
 </scxml>"##,
         dm = p.dm,
         invokes = invokes,
+        inv_initial = inv_initial,
+        broken = broken,
         never = child_doc(p, "never")
     )
 }
@@ -158,6 +178,7 @@ struct Outcome {
     xml: String,
     child_events_processed: usize,
     forwarded: usize,
+    perr: usize,
 }
 
 fn scenario(p: &Params, dir: &std::path::Path) -> Outcome {
@@ -169,6 +190,7 @@ fn scenario(p: &Params, dir: &std::path::Path) -> Outcome {
         xml: xml.clone(),
         child_events_processed: 0,
         forwarded: 0,
+        perr: 0,
     };
     let mut case = Case::new();
     case.executor.set_include_paths(&vec![dir.to_path_buf()]);
@@ -273,6 +295,14 @@ fn scenario(p: &Params, dir: &std::path::Path) -> Outcome {
         }
     } else {
         out.inconclusive = Some("flash state not entered".into());
+    }
+    out.perr = log.iter().filter(|e| matches!(&e.ev, Ev::Mark { tag, session, .. } if tag == "perr" && *session == pid)).count();
+    // (1b) when the parent waits for its next external event every invoke of the finished macrostep has been handled
+    if let Some(n) = log.iter().find_map(|e| match &e.ev {
+        Ev::AtIdle { states_to_invoke, .. } if e.tracer == r.tracer && *states_to_invoke > 0 => Some(*states_to_invoke),
+        _ => None,
+    }) {
+        out.violations.push(("invoke-still-pending-when-waiting-for-external-event".into(), format!("{} state(s) were still marked for invocation when the parent blocked on its external queue", n)));
     }
     // (2) exactly once per entry and invoke
     let started = children.values().filter(|(t, _)| t != "never").count();
@@ -555,6 +585,7 @@ pub fn run(args: &Args, rep: &mut Report) {
             explicit_id: rng.chance(1, 2),
             via_src_file: rng.chance(1, 3),
             host_events: if rng.chance(1, 2) { 1 + rng.below(4) } else { 0 },
+            failing_invoke: if i % 3 == 2 { 1 + rng.below(3) } else { 0 },
         };
         let o = scenario(&p, &dir);
         rep.evaluations += 1;
@@ -569,6 +600,10 @@ pub fn run(args: &Args, rep: &mut Report) {
         }
         if p.via_src_file {
             rep.count("template_src_file", 1);
+        }
+        if p.failing_invoke > 0 {
+            rep.count("template_failing_invoke_in_same_step", 1);
+            rep.count("invoke_step_errors_handled_by_parent", o.perr as u64);
         }
         if p.autoforward && p.host_events > 0 {
             rep.count("template_autoforward_with_host_events", 1);
